@@ -45,6 +45,20 @@ CHECKS = {
         'ref': 'DESIGN.md section 3 C06', 'note': NOTE_COMMON,
         'technique': 'deterministic simulation: linearisation order from the lock model + sequential bounded-FIFO reference',
     },
+    'C07': {
+        'text': 'Seeded worlds and sequences of every state-bearing uplink message kind with arbitrary field values (incl. unknown targets, corrupted and duplicated copies, '
+                'chunked delivery) interleaved at quiescent points with the user\'s commands; an executable reference model of the track state, fed with every processed '
+                'uplink message and every optimistic command in the simulator\'s global event order, must equal bidib_get_state at every quiescent point.',
+        'ref': 'DESIGN.md section 3 C07', 'note': NOTE_COMMON + '; sequentialised mode only (one event between quiescent points, internal threads still scheduled at random); the concurrent linearisation mode of the design is not built',
+        'technique': 'deterministic simulation: SimBus events with transport faults + reference state model compared at quiescence',
+    },
+    'C08': {
+        'text': 'Seeded occupancy / address report histories over several boards and trains with 1-3 concurrent reader tasks; after every message the presence getters must '
+                'equal the reference model (on_track <=> listed, position = exactly the listing segments, orientation one of the reported), and a bidib_get_state snapshot of '
+                'a concurrent reader must be internally consistent whenever the simulator saw no segment-mutating critical section during the call.',
+        'ref': 'DESIGN.md section 3 C08', 'note': NOTE_COMMON,
+        'technique': 'deterministic simulation: reference model + lock-section trace to judge concurrent snapshots',
+    },
     'C10': {
         'text': 'One concurrent workload (2-16 tasks mixing reads, flush, low-/high-level sends and every getter, continuous uplink traffic, auto-flush) under the deterministic '
                 'scheduler with three detectors: a ThreadSanitizer build in which the baton hand-off is invisible and all harness code is bracketed by ignore annotations, so only '
